@@ -1047,14 +1047,17 @@ fn check_c13(
         if iso.has_tree {
             let distinct: BTreeSet<&String> = iso.imports.iter().collect();
             for q in distinct {
-                let mut kinds: BTreeSet<&str> = BTreeSet::new();
+                // Note: a multiset - how often each kind is registered under the key. An
+                // implementation may legitimately resolve a key defined several times by counting.
+                let mut kinds: Vec<&str> = Vec::new();
                 if let Some(v) = registered.get(q) {
                     for (id, kind) in v {
-                        kinds.insert(kind);
+                        kinds.push(kind);
                         if id != k {
                             o.push((q.clone(), kind.clone()));
                         }
                     }
+                    kinds.sort();
                     if v.iter().any(|(id, _)| id != k) {
                         some_import_registered.insert(k.clone());
                     }
@@ -1065,7 +1068,6 @@ fn check_c13(
             f.push_str("<no tree>");
         }
         o.sort();
-        o.dedup();
         facts.insert(k.clone(), (e.text.clone(), f));
         others.insert(k.clone(), o);
     }
